@@ -4,6 +4,7 @@ package c03
 import (
 	"errors"
 	"fmt"
+	"sort"
 	"strings"
 	"testing"
 
@@ -48,6 +49,12 @@ type Case struct {
 	Warm  bool   `json:"warm,omitempty"`
 	// Format attribute of the Issuer elements: "" = the entity format | "-" = no attribute | literal.  Whatever
 	// it says, the value must be the IdP's entity ID.
+	// ReqHook: the application installed its own (accept-everything) ValidateRequestID: it replaces the request-ID
+	// rule, the addressing rules hold regardless.  ArtStatus (artifact entry): status of the ArtifactResponse that
+	// carries the Response ("" = Success): the carrier's own failure is a failure.  ArtIssuer: its Issuer.
+	ReqHook          bool   `json:"req_hook,omitempty"`
+	ArtStatus        string `json:"art_status,omitempty"`
+	ArtIssuer        *Field `json:"art_issuer,omitempty"`
 	RespIssuerFormat string `json:"resp_issuer_format,omitempty"`
 	AsrtIssuerFormat string `json:"asrt_issuer_format,omitempty"`
 	// Noise: options of the SP that concern only what it sends (see spkit.Noise); the verdict must not depend on them
@@ -127,6 +134,16 @@ var statusCodes = map[string][]string{
 	"absent":          {},
 }
 
+// statusNames: the keys of statusCodes in a fixed order (enumerations are sharded by index).
+func statusNames() []string {
+	var out []string
+	for k := range statusCodes {
+		out = append(out, k)
+	}
+	sort.Strings(out)
+	return out
+}
+
 func check(c Case) pbt.Result {
 	now := fix.Epoch
 	audience := spkit.SPEntity
@@ -191,6 +208,9 @@ func check(c Case) pbt.Result {
 	if c.Warm {
 		spkit.WarmUp(sp, fix.Epoch)
 	}
+	if c.ReqHook {
+		sp.ValidateRequestID = func(saml.Response, []string) error { return nil }
+	}
 	switch c.Validator {
 	case "accept":
 		sp.ValidateAudienceRestriction = func(*saml.Assertion) error { return nil }
@@ -212,7 +232,15 @@ func check(c Case) pbt.Result {
 	case "post":
 		o = spkit.ParsePOST(sp, forge.Bytes(el), []string{"id-req"}, at)
 	case "artifact":
-		env, err := forge.BuildArtifact(&forge.ArtifactSpec{ID: "id-art", InResponseTo: forge.S("id-artreq"), IssueInstant: forge.T(now), Issuer: forge.S(spkit.IDPEntity), Status: []string{forge.StatusOK}}, el)
+		artStatus := []string{forge.StatusOK}
+		if c.ArtStatus != "" {
+			artStatus = statusCodes[c.ArtStatus]
+		}
+		artIssuer := forge.S(spkit.IDPEntity)
+		if c.ArtIssuer != nil {
+			artIssuer = valueAt(*c.ArtIssuer, spkit.IDPEntity, at)
+		}
+		env, err := forge.BuildArtifact(&forge.ArtifactSpec{ID: "id-art", InResponseTo: forge.S("id-artreq"), IssueInstant: forge.T(now), Issuer: artIssuer, Status: artStatus}, el)
 		if err != nil {
 			return pbt.Result{Err: "harness: " + err.Error()}
 		}
@@ -299,6 +327,23 @@ func check(c Case) pbt.Result {
 	if c.Validator != "" {
 		res.Classes = append(res.Classes, "validator:"+c.Validator)
 	}
+	// the carrier of the artifact binding: its own status and issuer
+	if c.Entry == "artifact" {
+		if c.ArtStatus != "" && c.ArtStatus != "success" && c.ArtStatus != "success-nested" {
+			defects = append(defects, "artifact response status "+c.ArtStatus)
+			nonCorrect++
+		}
+		if c.ArtStatus == "success-nested" {
+			dontCare = true
+		}
+		if c.ArtIssuer != nil && c.ArtIssuer.Class != "correct" && c.ArtIssuer.Class != "absent" {
+			defects = append(defects, "artifact response issuer "+c.ArtIssuer.Class)
+			nonCorrect++
+		}
+	}
+	if c.ReqHook {
+		res.Classes = append(res.Classes, "custom-request-id-validator")
+	}
 	// status
 	if c.Status != "success" && c.Status != "success-nested" {
 		defects = append(defects, "status "+c.Status)
@@ -349,7 +394,7 @@ func check(c Case) pbt.Result {
 			res.Err = "accepted although not addressed to this SP by its IdP: " + desc()
 			return res
 		}
-		if len(defects) == 1 && strings.HasPrefix(defects[0], "status ") && !dontCare {
+		if len(defects) == 1 && strings.HasPrefix(defects[0], "status ") && !dontCare && c.ArtStatus == "" {
 			var bad saml.ErrBadStatus
 			pe := o.PrivateErr()
 			if pe == nil || !errors.As(pe, &bad) {
@@ -417,6 +462,15 @@ func gen(t *rapid.T) Case {
 	c.Warm = rapid.IntRange(0, 3).Draw(t, "warm") == 0
 	if rapid.IntRange(0, 2).Draw(t, "noise?") == 0 {
 		c.Noise = rapid.Uint64Range(1, 255).Draw(t, "noise")
+	}
+	c.ReqHook = rapid.IntRange(0, 4).Draw(t, "reqhook") == 0
+	if c.Entry == "artifact" && rapid.IntRange(0, 2).Draw(t, "artcarrier") == 0 {
+		c.ArtStatus = rapid.SampledFrom([]string{"requester", "responder", "versionmismatch", "nested-success", "near-success", "empty", "absent"}).Draw(t, "artstatus")
+		if rapid.Bool().Draw(t, "artissuer?") {
+			f := genField(t, "artissuer", true)
+			c.ArtIssuer = &f
+			c.ArtStatus = ""
+		}
 	}
 	if rapid.IntRange(0, 2).Draw(t, "issuerformats") == 0 {
 		c.RespIssuerFormat = rapid.SampledFrom(issuerFormats).Draw(t, "respIssuerFormat")
@@ -514,6 +568,46 @@ func enumDeliveredElsewhere(_ string, emit func(Case)) {
 				}
 			}
 		}
+		// the application's own request-ID validator is installed: every single addressing defect still counts
+		for _, rs := range []bool{false, true} {
+			base := Case{RespIssuer: ok, AsrtIssuer: ok, Recipients: []Field{ok}, Audiences: []Field{ok}, Destination: ok, Status: "success", AsrtSigned: true, RespSigned: rs, ReceivedAt: "acs", Entry: entry, ReqHook: true}
+			emit(base)
+			for _, bad := range []Field{{Class: "wrong"}, {Class: "empty"}, {Class: "near", Kind: nearKinds[0]}} {
+				c := base
+				c.RespIssuer = bad
+				emit(c)
+				c = base
+				c.AsrtIssuer = bad
+				emit(c)
+				c = base
+				c.Recipients = []Field{bad}
+				emit(c)
+				c = base
+				c.Audiences = []Field{bad}
+				emit(c)
+				c = base
+				c.Destination = bad
+				emit(c)
+			}
+			for _, st := range statusNames() {
+				c := base
+				c.Status = st
+				emit(c)
+			}
+		}
+		if entry == "artifact" {
+			for _, rs := range []bool{false, true} {
+				for _, inner := range []string{"success", "requester"} {
+					for _, st := range statusNames() {
+						emit(Case{RespIssuer: ok, AsrtIssuer: ok, Recipients: []Field{ok}, Audiences: []Field{ok}, Destination: ok, Status: inner, AsrtSigned: true, RespSigned: rs, ReceivedAt: "acs", Entry: entry, ArtStatus: st})
+					}
+				}
+				for _, bad := range []Field{{Class: "wrong"}, {Class: "empty"}, {Class: "absent"}, {Class: "alt", Kind: "sp-entity"}} {
+					b := bad
+					emit(Case{RespIssuer: ok, AsrtIssuer: ok, Recipients: []Field{ok}, Audiences: []Field{ok}, Destination: ok, Status: "success", AsrtSigned: true, RespSigned: rs, ReceivedAt: "acs", Entry: entry, ArtIssuer: &b})
+				}
+			}
+		}
 		for _, f := range issuerFormats {
 			for _, wrong := range []Field{ok, {Class: "wrong"}, {Class: "alt", Kind: "sp-entity"}, {Class: "near", Kind: nearKinds[0]}, {Class: "empty"}} {
 				for _, rs := range []bool{false, true} {
@@ -581,7 +675,7 @@ func enumSingleFault(_ string, emit func(Case)) {
 						emit(c)
 					}
 				}
-				for st := range statusCodes {
+				for _, st := range statusNames() {
 					_ = st
 				}
 				for _, st := range []string{"success", "requester", "responder", "versionmismatch", "authnfailed", "nested", "nested-success", "success-nested", "near-success", "empty", "absent"} {
